@@ -1,6 +1,9 @@
 """C02 correspondence (enclosure route): Log on SO3 / SE3 / RxSO3 / Sim3 vs Model/LieLog.v, plus the
 property's clauses (Exp(Log X) = X as transformations, |rotation part| <= pi, Log(-q) = Log(q),
-Log(Inv X) = -Log X, Log(Exp x) = x) evaluated on the implementation inside the search."""
+Log(Inv X) = -Log X, Log(Exp x) = x) evaluated on the implementation inside the search.  Every element is also
+evaluated as a later call on an object with a history (other value, in-place overwrite) and as an item of batches that
+mix special and generic elements in several shapes / memory layouts; those results must equal the fresh single-element
+result or satisfy the clauses themselves."""
 import math
 from ..common import *
 from ..lie import *
@@ -8,7 +11,8 @@ from .c01 import K_EPS, K_SQRT, direction, regime
 
 RULE = ('X = (unit quaternion from axis-angle, translation, scale); angle from {0, ladder around eps and sqrt(eps), O(1), ladder approaching pi from '
         'both sides incl. |w| around eps}, both hemispheres; translation 1e-6..1e6; scale e^-8..e^8; a case is (group, dtype, X); non-trivial = '
-        'not the identity; distinct by value; tolerances %d eps (rotation, log-scale), %d sqrt(eps) (translation block)' % (K_EPS, K_SQRT))
+        'not the identity; distinct by value; tolerances %d eps (rotation, log-scale), %d sqrt(eps) (translation block); each X also as a later call on a '
+        'reused, overwritten LieTensor (Log, Exp, Inv) and as an item of mixed batches (shapes, strided / transposed / expanded views)' % (K_EPS, K_SQRT))
 
 
 def gen_angle(rng, eps, kind):
@@ -118,11 +122,39 @@ def impl_log(pp, torch, g, X, dtype):
     return pp.LieTensor(torch.tensor(X, dtype=dtype), ltype=getattr(pp, g + '_type')).Log().tensor().tolist()
 
 
-def confirm(pp, torch, g, dname, X):
+def impl_invlog(pp, torch, g, X, dtype):
+    return pp.LieTensor(torch.tensor(X, dtype=dtype), ltype=getattr(pp, g + '_type')).Inv().Log().tensor().tolist()
+
+
+def impl_exp(pp, torch, g, x, dtype):
+    alg = ALGS[GROUPS.index(g)]
+    return pp.LieTensor(torch.tensor(x, dtype=dtype), ltype=getattr(pp, alg + '_type')).Exp().tensor().tolist()
+
+
+def inv_clause(g, out, li, eps):
+    """Log(Inv X) = -Log X away from rotation angle pi; out = Log X, li = Log(Inv X) as obtained from the implementation"""
+    if any(not math.isfinite(v) for v in li):
+        return 'Log(Inv X) is not finite: %s' % li
+    rot = out[0:3] if g in ('SO3', 'RxSO3') else out[3:6]
+    n = math.sqrt(sum(a * a for a in rot))
+    # (skipped at angle pi where the two-valued log makes the sign arbitrary)
+    if abs(n - math.pi) > 1e3 * eps:
+        tols = dict(tolerances(g, out, eps))
+        bad = [j for j in tols if abs(li[j] + out[j]) > 8 * tols[j] + 8 * K_SQRT * math.sqrt(eps) * abs(out[j]) * (1 if j < 3 and g in ('SE3', 'Sim3') else 0)]
+        if bad:
+            return 'Log(Inv X) != -Log X in components %s: %s vs %s' % (bad, li, out)
+    return None
+
+
+def confirm(pp, torch, g, dname, X, out=None, li=None):
+    """the property's clauses about Log X against the 60-digit principal logarithm; out / li: the values of Log X and
+    Log(Inv X) to be judged when they were obtained in another way (history on one object, item of a batch) than by a
+    fresh single-element call"""
     import mpmath as mp
     dtype = torch.float64 if dname == 'float64' else torch.float32
     eps = float(torch.finfo(dtype).eps)
-    out = impl_log(pp, torch, g, X, dtype)
+    if out is None:
+        out = impl_log(pp, torch, g, X, dtype)
     if any(not math.isfinite(v) for v in out):
         return 'Log returned a non-finite value %s' % out
     ref = mp_log_reference(g, X)
@@ -140,20 +172,18 @@ def confirm(pp, torch, g, dname, X):
     if n > math.pi * (1 + K_EPS * eps):
         worst.append('rotation part of Log has norm %.17g > pi' % n)
     # Log(Inv X) = -Log X
-    Xt = pp.LieTensor(torch.tensor(X, dtype=dtype), ltype=getattr(pp, g + '_type'))
-    li = Xt.Inv().Log().tensor().tolist()
-    # (skipped at angle pi where the two-valued log makes the sign arbitrary)
-    if abs(n - math.pi) > 1e3 * eps:
-        tols = dict(tolerances(g, out, eps))
-        bad = [j for j in tols if abs(li[j] + out[j]) > 8 * tols[j] + 8 * K_SQRT * math.sqrt(eps) * abs(out[j]) * (1 if j < 3 and g in ('SE3', 'Sim3') else 0)]
-        if bad:
-            worst.append('Log(Inv X) != -Log X in components %s: %s vs %s' % (bad, li, out))
+    if li is None:
+        li = impl_invlog(pp, torch, g, X, dtype)
+    w = inv_clause(g, out, li, eps)
+    if w:
+        worst.append(w)
     return '; '.join(worst) if worst else None
 
 
-def roundtrip(pp, torch, g, dname, X, out=None):
+def roundtrip(pp, torch, g, dname, X, out=None, back=None):
     """Exp(Log X) is the same transformation as X (quaternion sign irrelevant): checked on the implementation itself.
-    Skipped inside the input class of C01's recorded finding (sim3 Exp with both the log-scale and the angle tiny)."""
+    Skipped inside the input class of C01's recorded finding (sim3 Exp with both the log-scale and the angle tiny).
+    out / back: values of Log X / Exp(Log X) obtained elsewhere (history on one object, item of a batch)."""
     dtype = torch.float64 if dname == 'float64' else torch.float32
     eps = float(torch.finfo(dtype).eps)
     if out is None:
@@ -164,8 +194,10 @@ def roundtrip(pp, torch, g, dname, X, out=None):
         th = math.sqrt(sum(a * a for a in out[3:6]))
         if regime(sg, eps) == 'cancel' and th <= math.sqrt(eps) / 16:
             return None
-    alg = ALGS[GROUPS.index(g)]
-    back = pp.LieTensor(torch.tensor(out, dtype=dtype), ltype=getattr(pp, alg + '_type')).Exp().tensor().tolist()
+    if any(not math.isfinite(v) for v in out):
+        return 'Log returned a non-finite value %s' % out
+    if back is None:
+        back = impl_exp(pp, torch, g, out, dtype)
     if any(not math.isfinite(v) for v in back):
         return 'Exp(Log X) is not finite: %s' % back
     tb, qb, sb = split_elt(g, back)
@@ -183,6 +215,205 @@ def roundtrip(pp, torch, g, dname, X, out=None):
         if dt > 8 * K_SQRT * math.sqrt(eps) * tn:
             bad.append('translation differs by %.3g (|t| = %.3g)' % (dt, tn))
     return ('Exp(Log X) is not X: ' + '; '.join(bad)) if bad else None
+
+
+# ---- histories on one object, batches, memory layouts -------------------------------------------------------------
+HOWS = ['copy_', 'setitem', 'setitem-tensor', 'alias', 'fill', 'data', 'retract']
+LAYOUTS = ['contig', 'contig', 'stride2', 'featstride', 'transposed', 'expand']
+
+
+def same(a, b):
+    """bit-for-bit up to the sign of zero; NaN equals NaN"""
+    return len(a) == len(b) and all((x == y) or (x != x and y != y) for x, y in zip(a, b))
+
+
+def close(g, a, ref, eps):
+    """a is within 1/8 of the tie's tolerance of ref (a result of the same call made on a fresh single element, which the
+    tie compares with the model): rounding differences between kernels, not worth a 60-digit judgement"""
+    return all(math.isfinite(v) for v in a) and all(abs(a[j] - ref[j]) <= tol / 8 for j, tol in tolerances(g, ref, eps))
+
+
+def tname_of(g, op):
+    return ALGS[GROUPS.index(g)] if op == 'Exp' else g
+
+
+def second_call(pp, torch, g, op, prev, X, dtype, how, form, rg=False, batched=False):
+    """op(T) as a SECOND call on the object T: T first answers op for another value `prev`, is then overwritten in place
+    with X (how), and is asked again (form: method T.op() / function pp.op(T)).  Returns (value T holds at the judged call,
+    result of the judged call, whether the judged call changed T)."""
+    lt = getattr(pp, tname_of(g, op) + '_type')
+    raw = lambda v: torch.tensor([v] if batched else v, dtype=dtype)
+    mk = lambda v: pp.LieTensor(raw(v), ltype=lt)
+    call = (lambda A: getattr(A, op)()) if form == 'method' else (lambda A: getattr(pp, op)(A))
+    T = mk(prev)
+    if rg:
+        T.requires_grad_(True)
+    call(T)
+    call(T)
+    with torch.no_grad():
+        if how == 'copy_':
+            T.copy_(mk(X))
+        elif how == 'setitem':
+            T[...] = mk(X)
+        elif how == 'setitem-tensor':
+            T[:] = raw(X)
+        elif how == 'alias':
+            T.tensor().copy_(raw(X))
+        elif how == 'fill':
+            T.zero_()
+            T.tensor().add_(raw(X))
+        elif how == 'data':
+            T.data.copy_(raw(X))
+        elif how == 'retract':
+            # X.add_(a) is the retraction Exp(a) X: the value held afterwards is read back from the object
+            a = [0.25 * (v - u) for u, v in zip(prev, X)][:ADIM[g]]
+            T.add_(raw(a))
+        else:
+            raise ValueError(how)
+    snap = T.tensor().detach().clone()
+    res = call(T)
+    cur = T.tensor().detach()
+    changed = not torch.equal(snap, cur)
+    return snap.reshape(-1).tolist(), res.tensor().detach().reshape(-1).tolist(), changed
+
+
+def judge_history(pp, torch, g, dname, op, cur, res, X=None):
+    """cur: the value the object held; res: what the second call of op returned.  Judged by the property's clauses only."""
+    dtype = torch.float64 if dname == 'float64' else torch.float32
+    eps = float(torch.finfo(dtype).eps)
+    if op == 'Log':
+        fresh = impl_log(pp, torch, g, cur, dtype)
+        if same(res, fresh):
+            return None
+        why = roundtrip(pp, torch, g, dname, cur, out=res)
+        if why or close(g, res, fresh, eps):
+            return why
+        return confirm(pp, torch, g, dname, cur, out=res)
+    if op == 'Exp':
+        # cur is the algebra element x = Log X of a fresh call: Exp x must be the transformation X again
+        if same(res, impl_exp(pp, torch, g, cur, dtype)):
+            return None
+        return roundtrip(pp, torch, g, dname, X, out=cur, back=res)
+    if op == 'Inv':
+        fresh = pp.LieTensor(torch.tensor(cur, dtype=dtype), ltype=getattr(pp, g + '_type')).Inv().tensor().tolist()
+        if same(res, fresh):
+            return None
+        li = impl_log(pp, torch, g, res, dtype)
+        return inv_clause(g, impl_log(pp, torch, g, cur, dtype), li, eps)
+    raise ValueError(op)
+
+
+def run_history(pp, torch, g, dname, h, X):
+    """-> failure text or None; h = dict(op, prev, how, form, rg, batched).  op = Log / Inv: the object is overwritten with X;
+    op = Exp: with x = Log X of a fresh single call"""
+    dtype = torch.float64 if dname == 'float64' else torch.float32
+    val = X
+    if h['op'] == 'Exp':
+        val = impl_log(pp, torch, g, X, dtype)
+        if any(not math.isfinite(v) for v in val):
+            return None
+    cur, res, changed = second_call(pp, torch, g, h['op'], h['prev'], val, dtype, h['how'], h['form'], h.get('rg', False), h.get('batched', False))
+    if changed:
+        return '%s changed its argument in place: now %s' % (h['op'], cur)
+    if h['how'] != 'retract' and not same(cur, val):
+        return 'in-place update (%s) lost: object holds %s instead of %s' % (h['how'], cur, val)
+    why = judge_history(pp, torch, g, dname, h['op'], cur, res, X)
+    if why:
+        why = '%s on an object holding %s that answered %s for %s before and was overwritten in place (%s, %s form%s): %s' % (
+            h['op'], cur, h['op'], h['prev'], h['how'], h['form'], ', requires_grad' if h.get('rg') else '', why)
+    return why
+
+
+def make_batch(torch, Xs, shape, layout, dtype):
+    """-> (batch tensor of shape shape + (d,), its base, index of the element of Xs held by each item in row-major order)"""
+    n, d = len(Xs), len(Xs[0])
+    base = torch.tensor(Xs, dtype=dtype).reshape(n, d)
+    idx = torch.arange(n)
+    if layout == 'contig':
+        return base.reshape(tuple(shape) + (d,)), base, idx.tolist()
+    if layout == 'stride2':
+        big = torch.full((2 * n, d), 0.5, dtype=dtype)
+        big[::2] = base
+        return big[::2], big, idx.tolist()
+    if layout == 'featstride':
+        big = torch.full((n, 2 * d), 0.5, dtype=dtype)
+        big[:, ::2] = base
+        return big[:, ::2].reshape(tuple(shape) + (d,)), big, idx.tolist()
+    if layout == 'transposed':
+        a, b = shape if len(shape) == 2 else (1, n)
+        big = base.reshape(b, a, d)
+        return big.transpose(0, 1), big, idx.reshape(b, a).transpose(0, 1).reshape(-1).tolist()
+    if layout == 'expand':
+        k = 3
+        return base.reshape(1, n, d).expand(k, n, d), base, idx.repeat(k).tolist()
+    raise ValueError(layout)
+
+
+def batch_eval(pp, torch, g, dname, Xs, shape, layout):
+    """Log, Log . Inv and Exp . Log of a whole batch.  -> (index map, Log items, Log(Inv) items, Exp(Log) items, mutation text)"""
+    dtype = torch.float64 if dname == 'float64' else torch.float32
+    B, base, idx = make_batch(torch, Xs, shape, layout, dtype)
+    snap = base.clone()
+    T = pp.LieTensor(B, ltype=getattr(pp, g + '_type'))
+    L = T.Log()
+    LI = T.Inv().Log()
+    E = L.Exp()
+    mut = None if torch.equal(snap, base) else 'Log / Inv / Exp changed the batch they were called on'
+    if tuple(L.shape) != tuple(B.shape[:-1]) + (ADIM[g],) or tuple(E.shape) != tuple(B.shape):
+        return idx, None, None, None, 'Log of a batch of shape %s has shape %s, Exp(Log) %s' % (tuple(B.shape), tuple(L.shape), tuple(E.shape))
+    f = lambda A: A.tensor().detach().reshape(-1, A.shape[-1]).tolist()
+    return idx, f(L), f(LI), f(E), mut
+
+
+def judge_item(pp, torch, g, dname, X, single, L, LI, E):
+    """item of a batch against the single-element results single = (Log X, Log Inv X, Exp Log X): identical, or else
+    judged by the property's clauses"""
+    dtype = torch.float64 if dname == 'float64' else torch.float32
+    eps = float(torch.finfo(dtype).eps)
+    if single is None:
+        out = impl_log(pp, torch, g, X, dtype)
+        single = (out, impl_invlog(pp, torch, g, X, dtype), impl_exp(pp, torch, g, out, dtype) if all(math.isfinite(v) for v in out) else None)
+    if not same(L, single[0]):
+        why = roundtrip(pp, torch, g, dname, X, out=L, back=E)
+        if why or (close(g, L, single[0], eps) and close(g, LI, single[1], eps)):
+            return why
+        return confirm(pp, torch, g, dname, X, out=L, li=LI)
+    if single[2] is not None and not same(E, single[2]):
+        return roundtrip(pp, torch, g, dname, X, out=L, back=E)
+    if not same(LI, single[1]):
+        return inv_clause(g, L, LI, eps)
+    return None
+
+
+def run_batch(pp, torch, g, dname, b, singles=None):
+    """b = dict(Xs, shape, layout); -> list of (item number, X, failure text)"""
+    try:
+        idx, L, LI, E, mut = batch_eval(pp, torch, g, dname, b['Xs'], b['shape'], b['layout'])
+    except Exception as e:
+        return [(0, b['Xs'][0], 'Log / Inv / Exp of the batch raised %r' % (e,))]
+    fails = []
+    if L is None:
+        return [(0, b['Xs'][0], mut)]
+    if mut:
+        fails.append((0, b['Xs'][0], mut))
+    for k, i in enumerate(idx):
+        why = judge_item(pp, torch, g, dname, b['Xs'][i], singles[i] if singles else None, L[k], LI[k], E[k])
+        if why:
+            fails.append((k, b['Xs'][i], 'item %d of a batch of shape %s (%s) differs from the same element alone: %s' % (k, tuple(b['shape']), b['layout'], why)))
+    return fails
+
+
+def empty_batch(pp, torch, g, dname):
+    dtype = torch.float64 if dname == 'float64' else torch.float32
+    for shape in ((0,), (2, 0), (0, 3)):
+        T = pp.LieTensor(torch.zeros(shape + (GDIM[g],), dtype=dtype), ltype=getattr(pp, g + '_type'))
+        try:
+            got = (tuple(T.Log().shape), tuple(T.Inv().Log().shape), tuple(T.Log().Exp().shape))
+        except Exception as e:
+            return 'Log / Inv / Exp of an empty batch of shape %s raised %r' % (shape, e)
+        if got != (shape + (ADIM[g],), shape + (ADIM[g],), shape + (GDIM[g],)):
+            return 'empty batch of shape %s: Log, Log Inv, Exp Log have shapes %s' % (shape, got)
+    return None
 
 
 def key_of(g, dname, X, eps):
@@ -212,6 +443,17 @@ def run(ctx):
             plan.append((g, 'float64' if rng.random() < 0.7 else 'float32', rng.choice(ANG)))
     cases, meta = [], []
     ncase = 0
+    import random as _random
+    hr = _random.Random(rng.getrandbits(64))      # histories / batches: own stream, the case generator is not disturbed
+    reported = set()
+
+    def report(key, what, rep):
+        # one mpmath judgement per key is enough for a report; the rest is counted
+        ctx.count('fail:' + key)
+        if key not in reported:
+            reported.add(key)
+            ctx.violation(key, what, rep)
+
     for (g, dname, kind) in plan:
         dtype = torch.float64 if dname == 'float64' else torch.float32
         eps = float(torch.finfo(dtype).eps)
@@ -231,12 +473,72 @@ def run(ctx):
         vn = math.sqrt(sum(a * a for a in q[:3]))
         br = '%s:%s:%s' % (g, dname, 'regime3' if vn <= eps else ('regime2' if abs(q[3]) <= eps else ('regime1-w<0' if q[3] < 0 else 'regime1')))
         ctx.case((g, dname, tuple(X)), nontrivial=(vn != 0), branch=br, sample=dict(g=g, dtype=dname, X=X, impl=out) if i % 157 == 5 else None)
-        meta.append(dict(g=g, dtype=dname, X=X, impl=out, kind=kind))
-        why = roundtrip(pp, torch, g, dname, X, out)
+        try:
+            li = impl_invlog(pp, torch, g, X, dtype)
+            back = impl_exp(pp, torch, g, out, dtype)
+        except Exception as e:
+            ctx.violation('log-raises:%s' % g, 'Log(Inv X) / Exp(Log X) raised %r' % (e,), dict(g=g, dtype=dname, X=X))
+            continue
+        meta.append(dict(g=g, dtype=dname, X=X, impl=out, kind=kind, li=li, back=back))
+        why = roundtrip(pp, torch, g, dname, X, out, back)
         if why:
             ctx.violation('exp-log-roundtrip:%s:%s' % (g, dname), '%s [%s %s] X=%s' % (why, g, dname, X), dict(g=g, dtype=dname, X=X, roundtrip=True))
+        # the same element through an object with a history: every op judged as a later call on its object, after calls
+        # with another value and an in-place overwrite
+        for op in ('Log', 'Exp', 'Inv'):
+            how = hr.choice([h for h in HOWS if not (op == 'Exp' and h == 'retract')])
+            prev = gen_X(hr, g, eps, hr.choice(['one', 'one', 'far', 'zero']), torch, dtype)
+            if op == 'Exp':
+                prev = [hr.uniform(-1.5, 1.5) for _ in range(ADIM[g])]
+            h = dict(op=op, prev=prev, how=how, form=hr.choice(['method', 'function']), rg=hr.random() < 0.25, batched=hr.random() < 0.3)
+            key = 'history:%s:%s:%s' % (op, g, how)
+            ctx.count('history:%s:%s' % (op, how))
+            try:
+                why = run_history(pp, torch, g, dname, h, X)
+            except Exception as e:
+                why = 'raised %r' % (e,)
+            if why:
+                report(key, '%s [%s %s]' % (why, g, dname), dict(g=g, dtype=dname, X=X, hist=h))
         epsl = 'E64' if dname == 'float64' else 'E32'
         cases.append(dict(idx=i, expr='log_l (NF:=@NF@) (TF:=TransIv) %s %d %s' % (epsl, GID[g], ivlist(X)), comps=[(j, out[j], tol) for j, tol in tolerances(g, out, eps)]))
+    # batches: every element again as an item of a batch (mixed special / generic elements, shapes, memory layouts);
+    # each item must be what the element gives alone, or at least satisfy the clauses
+    nb = 0
+    for g in GROUPS:
+        for dname in ('float64', 'float32'):
+            why = empty_batch(pp, torch, g, dname)
+            if why:
+                report('batch:empty:%s' % g, '%s [%s %s]' % (why, g, dname), dict(g=g, dtype=dname, X=[], empty=True))
+            ids = [i for i, m in enumerate(meta) if m['g'] == g and m['dtype'] == dname]
+            if not ids:
+                continue
+            groups = []
+            generic = [i for i in ids if meta[i]['kind'] == 'one']
+            for kind in ANG:            # directed: one special element next to one generic one, both orders
+                sp = [i for i in ids if meta[i]['kind'] == kind]
+                if sp and generic:
+                    a, b = hr.choice(sp), hr.choice(generic)
+                    groups.append(([a, b], (2,), 'contig'))
+                    groups.append(([b, a, hr.choice(generic)], (3,), hr.choice(LAYOUTS)))
+            pool = ids[:]
+            hr.shuffle(pool)
+            while pool:
+                n = min(len(pool), hr.choice([1, 2, 3, 4, 6, 8, 12]))
+                part, pool = pool[:n], pool[n:]
+                shape = (n,)
+                layout = hr.choice(LAYOUTS)
+                divs = [a for a in (2, 3, 4) if n % a == 0 and n > a]
+                if layout == 'transposed' or (divs and layout in ('contig', 'featstride') and hr.random() < 0.5):
+                    a = hr.choice(divs) if divs else 1
+                    shape = (a, n // a)
+                groups.append((part, shape, layout))
+            for part, shape, layout in groups:
+                b = dict(Xs=[meta[i]['X'] for i in part], shape=list(shape), layout=layout)
+                nb += 1
+                ctx.count('batch:%s' % layout)
+                for k, X, why in run_batch(pp, torch, g, dname, b, [(meta[i]['impl'], meta[i]['li'], meta[i]['back']) for i in part]):
+                    report('batch:%s:%s:%s' % (g, dname, layout), '%s [%s %s] X=%s' % (why, g, dname, X), dict(g=g, dtype=dname, X=X, batch=b))
+    ctx.notes.append('%d batches (mixed special/generic items, 2-D shapes, strided / transposed / expanded views, empty) compared item by item with single-element calls; every case also through Log / Exp / Inv histories on one object' % nb)
     r = run_interval('C02', 'Model.LieGroup Model.LieExp Model.LieLog', cases)
     for name, out in r['broken']:
         ctx.obligation_broken('correspondence-file:' + name, out)
@@ -270,4 +572,11 @@ def replay(ctx, c):
     import torch
     if c.get('roundtrip'):
         return roundtrip(pp, torch, c['g'], c['dtype'], c['X'])
+    if c.get('empty'):
+        return empty_batch(pp, torch, c['g'], c['dtype'])
+    if c.get('hist'):
+        return run_history(pp, torch, c['g'], c['dtype'], c['hist'], c['X'])
+    if c.get('batch'):
+        fails = run_batch(pp, torch, c['g'], c['dtype'], c['batch'])
+        return '; '.join(w for _, _, w in fails[:3]) if fails else None
     return confirm(pp, torch, c['g'], c['dtype'], c['X'])
